@@ -55,5 +55,11 @@ func nullifyLastAppliedAnnotation(object *unstructured.Unstructured) {
 		return
 	}
 	delete(annotations, apply.LastAppliedAnnotation)
+	if len(annotations) == 0 {
+		// It was the only annotation: leave no empty map behind. An empty map
+		// differs from no annotations at all and would read as a change of the
+		// desired state.
+		annotations = nil
+	}
 	object.SetAnnotations(annotations)
 }
